@@ -680,6 +680,11 @@ struct Dom {
     cont_garbage: bool,
     /// Binary frames that do not deserialise (`binbad i`), incl. bytes that are not UTF-8
     binjunk: bool,
+    /// configuration-shape family (`cfg…`): 4-12 instruments on the connection (symbols that are prefixes of one
+    /// another: SYM1 / SYM10 / SYM11), half of them subscribed but silent, updates for never-subscribed symbols
+    /// that extend a subscribed one (SYM3 subscribed, SYM30 not), manager cells for none / one / all but one / all /
+    /// one more than the subscribed instruments
+    cfg_many: bool,
 }
 
 const OFFSETS: [u64; 8] = [
@@ -882,7 +887,14 @@ fn noise_frame(rng: &mut Rng, k: &Knobs, template: Option<&Msg>) -> String {
                 bids: vec![],
                 asks: vec![],
             });
-            m.sym = k.n + rng.below(2) as usize;
+            m.sym = if k.dom.cfg_many && rng.chance(70) {
+                // a never-subscribed symbol whose name extends the subscribed SYM<sym>
+                let c = 10 * m.sym + rng.below(10) as usize;
+                let c = if c < k.n { 100 * m.sym + rng.below(10) as usize } else { c };
+                if c < k.n { k.n + rng.below(2) as usize } else { c }
+            } else {
+                k.n + rng.below(2) as usize
+            };
             format!("upd {}", m.body())
         }
     }
@@ -983,6 +995,9 @@ fn gen_connection(out: &mut Out, rng: &mut Rng, k: &Knobs, venues: &[(Vec<Chg>, 
             }
         }
         d.truncate(k.max_msgs);
+        if k.dom.cfg_many && rng.chance(50) {
+            d.clear(); // subscribed, snapshot fetched, never an update on this connection
+        }
         all_base.extend(base);
         deliveries.push(d);
     }
@@ -1030,10 +1045,12 @@ fn gen_connection(out: &mut Out, rng: &mut Rng, k: &Knobs, venues: &[(Vec<Chg>, 
 
 fn gen_random_case(out: &mut Out, rng: &mut Rng, thorough: bool, partial: bool, dom: &Dom) {
     let spot = rng.chance(50);
-    let n = *rng.pick(&[1usize, 1, 2, 3]);
+    let n = if dom.cfg_many { *rng.pick(&[4usize, 5, 7, 11, 11, 12]) } else { *rng.pick(&[1usize, 1, 2, 3]) };
     let m = match rng.below(10) {
         0 => n.saturating_sub(1),
         1 => n + 1,
+        2 if dom.cfg_many => 0,
+        3 if dom.cfg_many => 1,
         _ => n,
     };
     out.line(format!("init {} {n} {m}", if spot { "spot" } else { "fut" }));
@@ -1042,13 +1059,13 @@ fn gen_random_case(out: &mut Out, rng: &mut Rng, thorough: bool, partial: bool, 
         n,
         non_genuine: rng.chance(if dom.cont_garbage { 40 } else { 10 }),
         extras: rng.chance(40),
-        noise_pct: if dom.binjunk { *rng.pick(&[15u64, 25]) } else { *rng.pick(&[0u64, 10, 25]) },
+        noise_pct: if dom.binjunk { *rng.pick(&[15u64, 25]) } else if dom.cfg_many { *rng.pick(&[15u64, 25, 35]) } else { *rng.pick(&[0u64, 10, 25]) },
         clean_pct: *rng.pick(&[30u64, 60, 90]),
-        max_msgs: if thorough { 14 } else { 9 },
+        max_msgs: if dom.cfg_many { 4 } else if thorough { 14 } else { 9 },
         depths: vec![None; n],
         dom: *dom,
     };
-    let venues: Vec<(Vec<Chg>, Vec<String>)> = (0..n).map(|_| gen_venue(rng, if thorough { 40 } else { 24 }, dom)).collect();
+    let venues: Vec<(Vec<Chg>, Vec<String>)> = (0..n).map(|_| gen_venue(rng, if dom.cfg_many { 8 } else if thorough { 40 } else { 24 }, dom)).collect();
     for (i, (v, _)) in venues.iter().enumerate() {
         out.line(venue_line(i, v));
     }
@@ -1187,9 +1204,25 @@ fn generate(seed: u64, n_cases: usize, tier: &str) {
             restyle: drng.chance(50),
             cont_garbage: drng.chance(40),
             binjunk: drng.chance(50),
+            cfg_many: false,
         };
         let partial = drng.chance(25);
         gen_random_case(&mut out, &mut drng, thorough, partial, &dom);
+    }
+    // configuration-shape family (a fourth independent stream, ids cfg…; every case above is unchanged): 4-12
+    // instruments on one connection, half of them silent, prefix-sharing symbols, unsubscribed extensions,
+    // manager cells for 0 / 1 / n-1 / n / n+1 instruments
+    let mut crng = Rng::new(seed ^ 0xc0f1_6c06_e0a1_15e7);
+    for j in 0..(n_cases / 10).max(if n_cases > 0 { 12 } else { 0 }) {
+        id += 1;
+        out.case(format!("cfg{id}"));
+        let dom = Dom {
+            offset: OFFSETS[j % 3],
+            cfg_many: true,
+            ..Dom::default()
+        };
+        let partial = crng.chance(25);
+        gen_random_case(&mut out, &mut crng, thorough, partial, &dom);
     }
     out.flush();
 }
